@@ -39,6 +39,7 @@ func (f *FilterLabelsPlanner) Process(ctx *shared.PlannerContext) (sql.ISelect, 
 
 	res := sql.NewSelect().
 		With(withMain).
+		Distinct(true).
 		Select(sql.NewCol(filterTagsCol, "tags"),
 			sql.NewSimpleCol("type_id", "type_id"),
 			sql.NewSimpleCol("__sample_types_units", "__sample_types_units")).
